@@ -1036,6 +1036,49 @@ fn build_cases(rep: &Report, rng: &mut Rng) -> Vec<Case> {
     ] {
         cs.push(gcov_case(&format!("gcov huge numbers: {}", w), t.as_bytes().to_vec(), true, true));
     }
+    // gcov text: malformed records on LONG lines (200-600 bytes) made of 2-, 3-, 4-byte characters or
+    // invalid bytes (each becomes the 3 bytes of U+FFFD), shifted by 0..3 bytes so that a character
+    // straddles every byte offset around 256: whatever the reader does with the rejected line (echo it
+    // in the error, cut it) must end in an error value (seeded change C14-5: `&l[..256]`)
+    {
+        let fills: [(&str, Vec<u8>); 5] = [
+            ("2-byte", "\u{e9}".as_bytes().to_vec()),
+            ("3-byte", "\u{8a9e}".as_bytes().to_vec()),
+            ("4-byte", "\u{1d6fc}".as_bytes().to_vec()),
+            ("invalid", vec![0xFF]),
+            ("mixed", "a\u{e9}\u{8a9e}\u{1d6fc}".as_bytes().iter().copied().chain([0xF0u8, 0x9F]).collect()),
+        ];
+        // (name, text before the fill, text after it)
+        let shapes: [(&str, &str, &str); 9] = [
+            ("no colon", "", ""),
+            ("function: start line is no number", "function:", ",1,f"),
+            ("function: name missing", "function:12,", ""),
+            ("function: 20-digit start line", "function:99999999999999999999,1,", ""),
+            ("lcount: line is no number", "lcount:", ",1"),
+            ("lcount: count is no number", "lcount:7,", ""),
+            ("lcount: count missing", "lcount:", ""),
+            ("branch: 20-digit line", "branch:99999999999999999999,", ""),
+            ("branch: outcome missing", "branch:", ""),
+        ];
+        for (fname, unit) in &fills {
+            for (sname, pre, post) in &shapes {
+                for len in [200usize, 300, 600] {
+                    for shift in 0..4usize {
+                        let mut line: Vec<u8> = pre.as_bytes().to_vec();
+                        line.extend(std::iter::repeat(b'x').take(shift));
+                        while line.len() < len {
+                            line.extend_from_slice(unit);
+                        }
+                        line.extend_from_slice(post.as_bytes());
+                        let mut d = b"file:ok.c\nlcount:1,1\n".to_vec();
+                        d.extend(line);
+                        d.extend_from_slice(b"\nlcount:2,2\n");
+                        cs.push(gcov_case(&format!("gcov malformed record on a long line ({}; {} fill; {} bytes; shift {})", sname, fname, len, shift), d, true, true));
+                    }
+                }
+            }
+        }
+    }
     // gcov JSON
     let line = |n: u64, brs: usize| {
         J::Obj(vec![
